@@ -1,6 +1,6 @@
 (** * Layer W: every transition of the core machine preserves the coverage invariant [CInv]. *)
 From Coq Require Import ZArith List Bool Arith Lia.
-From Stk Require Import Lib.U Gen.SrcWaker W.Waker W.WakerArith W.WakerCore.
+From Stk Require Import Lib.U Gen.SrcWaker W.Waker W.WakerArith W.WakerCore W.WakerSlab.
 Import ListNotations.
 Local Open Scope Z_scope.
 Ltac Zify.zify_post_hook ::= Z.div_mod_to_equations.
@@ -81,7 +81,9 @@ Section HeadStep.
   Hypothesis Hbs : forall bm, c_base c' bm = c_base c bm.
   Hypothesis Hacc : c_acc c' = c_acc c.
   Hypothesis Hfin : forall u, c_final c' u = c_final c u.
-  Hypothesis Hnew : forall j, In j new -> wfinstr c j /\ is_drain j = false /\ (t <> main -> main_only j = false).
+  Hypothesis Hnew_wf : forall j, In j new -> wfinstr c j.
+  Hypothesis Hnew_mo : forall j, In j new -> t <> main -> main_only j = false.
+  Hypothesis Hnew_dr : t = main -> drain_ok (new ++ r).
 
   Lemma hs_creg : forall bm, creg c' bm = creg c bm.
   Proof. intro. unfold creg. rewrite Hvl. reflexivity. Qed.
@@ -107,16 +109,14 @@ Section HeadStep.
   Proof.
     intros u j Hj.
     assert (W : wfinstr c j).
-    { destruct (hs_new j u Hj) as [H|[_ H]]; [eapply i_wf; eauto | apply Hnew; auto]. }
+    { destruct (hs_new j u Hj) as [H|[_ H]]; [eapply i_wf; eauto | apply Hnew_wf; auto]. }
     destruct j as [k| | | | | | | | | | | | |]; simpl in *; auto. destruct k; simpl in *; rewrite ?hs_creg; auto.
   Qed.
 
   Lemma hs_drain : drain_ok (c_cont c' main).
   Proof.
     pose proof (i_drain c I) as D. rewrite Hc'. destruct (Nat.eq_dec main t) as [E|Hn].
-    - rewrite <- E in *. rewrite updT_same. rewrite Hc in D.
-      apply drain_ok_app_nd; [intros; apply Hnew; auto|].
-      clear - D. induction pre; simpl in *; auto. apply IHl. tauto.
+    - rewrite <- E. rewrite updT_same. apply Hnew_dr. auto.
     - rewrite updT_other by auto. auto.
   Qed.
 
@@ -130,7 +130,7 @@ Section HeadStep.
   Proof.
     intros u Hu j Hj. destruct (hs_new j u Hj) as [H|[-> H]].
     - eapply i_mainonly; eauto.
-    - apply Hnew; auto.
+    - apply Hnew_mo; auto.
   Qed.
 
   Lemma hs_final : forall u j, In j (c_final c' u) -> okfinal j.
@@ -158,6 +158,16 @@ Section HeadStep.
   Lemma hs_climbing_other : forall u k, cclimbing c u k -> u <> t -> cclimbing c' u k.
   Proof. intros u k [r' H] Hn. exists r'. rewrite hs_other; auto. Qed.
 End HeadStep.
+
+Lemma drain_ok_drop : forall pre r, drain_ok (pre ++ r) -> drain_ok r.
+Proof. induction pre; simpl; intros; auto. apply IHpre. tauto. Qed.
+
+Lemma drain_replace : forall c t pre r new,
+  CInv c -> c_cont c t = pre ++ r -> (forall j, In j new -> is_drain j = false) -> t = main -> drain_ok (new ++ r).
+Proof.
+  intros c t pre r new I Hc Hn ->. apply drain_ok_app_nd; auto.
+  pose proof (i_drain c I) as D. rewrite Hc in D. eapply drain_ok_drop; eauto.
+Qed.
 
 Ltac inv_pre H := simpl in H; destruct H as [<-|[]].
 
@@ -247,10 +257,10 @@ Proof.
     + apply andb_true_iff in E. destruct E as [E1 E2]. apply Z.eqb_eq in E1, E2. subst. auto.
     + apply (i_leafwf c I); auto.
   - intros bm' Hs. rewrite (hs_creg c c') by reflexivity. apply (i_summwf c I); auto.
-  - eapply (hs_wf c c' t); eauto; reflexivity.
-  - eapply (hs_drain c c' t); eauto.
+  - eapply (hs_wf c c' t); eauto; try reflexivity. intros j Hj; apply Hnew; auto.
+  - eapply (hs_drain c c' t); eauto. eapply drain_replace; eauto. intros j Hj; apply Hnew; auto.
   - eapply (hs_acc c c' t); eauto; reflexivity.
-  - eapply (hs_mainonly c c' t); eauto.
+  - eapply (hs_mainonly c c' t); eauto. intros j Hj; apply Hnew; auto.
   - eapply (hs_final c c'); eauto; reflexivity.
   - eapply (hs_slab c c'); eauto; reflexivity.
 Qed.
@@ -312,10 +322,10 @@ Proof.
     destruct (bm' =? bm) eqn:E.
     + apply Z.eqb_eq in E. subst. auto.
     + apply (i_summwf c I); auto.
-  - eapply (hs_wf c c' t); eauto; reflexivity.
-  - eapply (hs_drain c c' t); eauto.
+  - eapply (hs_wf c c' t); eauto; try reflexivity. intros j Hj; apply Hnew; auto.
+  - eapply (hs_drain c c' t); eauto. eapply drain_replace; eauto. intros j Hj; apply Hnew; auto.
   - eapply (hs_acc c c' t); eauto; reflexivity.
-  - eapply (hs_mainonly c c' t); eauto.
+  - eapply (hs_mainonly c c' t); eauto. intros j Hj; apply Hnew; auto.
   - eapply (hs_final c c'); eauto; reflexivity.
   - eapply (hs_slab c c'); eauto; reflexivity.
 Qed.
@@ -370,10 +380,10 @@ Proof.
       * right; right. exists u. apply Hkeepc; auto. discriminate.
   - intros bm' a' Hl. rewrite (hs_creg c c') by reflexivity. apply (i_leafwf c I); auto.
   - intros bm' Hs. rewrite (hs_creg c c') by reflexivity. apply (i_summwf c I); auto.
-  - eapply (hs_wf c c' t); eauto; reflexivity.
-  - eapply (hs_drain c c' t); eauto.
+  - eapply (hs_wf c c' t); eauto; try reflexivity. intros j Hj; apply Hnew; auto.
+  - eapply (hs_drain c c' t); eauto. eapply drain_replace; eauto. intros j Hj; apply Hnew; auto.
   - eapply (hs_acc c c' t); eauto; reflexivity.
-  - eapply (hs_mainonly c c' t); eauto.
+  - eapply (hs_mainonly c c' t); eauto. intros j Hj; apply Hnew; auto.
   - eapply (hs_final c c'); eauto; reflexivity.
   - eapply (hs_slab c c'); eauto; reflexivity.
 Qed.
@@ -415,10 +425,730 @@ Proof.
   - intros _. left. reflexivity.
   - intros bm' a' Hl. rewrite (hs_creg c c') by reflexivity. apply (i_leafwf c I); auto.
   - intros bm' Hs. rewrite (hs_creg c c') by reflexivity. apply (i_summwf c I); auto.
+  - eapply (hs_wf c c' t); eauto; try reflexivity. intros j Hj; apply Hnew; auto.
+  - eapply (hs_drain c c' t); eauto. eapply drain_replace; eauto. intros j Hj; apply Hnew; auto.
+  - eapply (hs_acc c c' t); eauto; reflexivity.
+  - eapply (hs_mainonly c c' t); eauto. intros j Hj; apply Hnew; auto.
+  - eapply (hs_final c c'); eauto; reflexivity.
+  - eapply (hs_slab c c'); eauto; reflexivity.
+Qed.
+
+(** ** [wake_list]: the drain *)
+Lemma instr_IBms_dec : forall l l' : list Z, {l = l'} + {l <> l'}.
+Proof. apply list_eq_dec. apply Z.eq_dec. Qed.
+
+Lemma bits_of_spec : forall v i, In i (bits_of v) <-> (0 <= i < 64 /\ Z.testbit v i = true).
+Proof.
+  intros v i. unfold bits_of. rewrite filter_In, in_map_iff. rewrite usize_bits. split.
+  - intros [[n [<- Hn]] Ht]. apply in_seq in Hn. split; auto. lia.
+  - intros [Hr Ht]. split; auto. exists (Z.to_nat i). split; [lia|]. apply in_seq. lia.
+Qed.
+
+Lemma cbms_in : forall c bm, creg c bm = true -> In bm (cbms_of_slot c (bm mod 64)).
+Proof.
+  intros c bm Hr. unfold creg in Hr. rewrite usize_bits in Hr. apply andb_true_iff in Hr.
+  rewrite Z.leb_le, Z.ltb_lt in Hr. destruct Hr as [H0 H1].
+  unfold cbms_of_slot. rewrite usize_bits. apply in_map_iff. exists (Z.to_nat (bm / 64)). split; [lia|].
+  apply in_seq. lia.
+Qed.
+
+Lemma collect_spec : forall base a old,
+  0 <= a < 64 -> 0 <= base -> base + 4096 <= 4294967296 ->
+  collect base a old = (map (fun b => 64 * a + b + base) (bits_of old), true).
+Proof.
+  intros base a old Ha Hb Hb2. unfold collect.
+  assert (H : forall l, (forall b, In b l -> 0 <= b < 64) ->
+              fold_right (fun b r => match bitmap_join a b base with
+                                     | Some x => (x :: fst r, snd r) | None => (fst r, false) end) ([], true) l
+              = (map (fun b => 64 * a + b + base) l, true)).
+  { induction l as [|b l IH]; intros Hl; simpl; auto.
+    rewrite IH by (intros; apply Hl; right; auto).
+    rewrite bitmap_join_spec by (auto; apply Hl; left; auto). reflexivity. }
+  apply H. intros b Hbb. apply bits_of_spec in Hbb. tauto.
+Qed.
+
+Lemma pres_top_swap : forall c r,
+  CInv c -> c_cont c main = ITopSwap :: r -> CInv (f_top_swap c r).
+Proof.
+  intros c r I Hc.
+  set (new := [IBms (flat_map (cbms_of_slot c) (bits_of (c_top c)))]).
+  set (c' := f_top_swap c r).
+  assert (Hc0 : c_cont c main = [ITopSwap] ++ r) by exact Hc.
+  assert (Hpre : forall j, In j [ITopSwap] -> j <> IRun /\ (forall l, j <> IHandlers l)).
+  { intros j Hj. inv_pre Hj. split; intros; discriminate. }
+  assert (Hc' : forall u, c_cont c' u = updT (c_cont c) main (new ++ r) u) by reflexivity.
+  assert (Hkeepc : forall u k, cclimbing c u k -> cclimbing c' u k).
+  { intros u k Hk. destruct (Nat.eq_dec u main) as [->|Hn].
+    - apply (climbing_head_eq _ _ _ _ _ Hk) in Hc. discriminate.
+    - eapply hs_climbing_other; eauto. }
+  assert (Hin : forall j, In j (c_cont c main) -> j <> ITopSwap -> In j (c_cont c' main)).
+  { intros j Hj Hn. eapply hs_in_main; eauto. intro P. inv_pre P. congruence. }
+  assert (Hrun : In IRun r).
+  { pose proof (i_drain c I) as D. rewrite Hc in D. simpl in D. apply D. reflexivity. }
+  constructor.
+  - intros h Hh. change (c_new c' h) with (c_new c h) in Hh.
+    destruct (i_new c I h Hh) as [A|[x [A B]]].
+    + left. eapply hs_chpend; eauto. intros j Hj. inv_pre Hj. simpl. tauto.
+    + right. exists x. split; auto.
+  - intros h Hh. change (c_col c' h) with (c_col c h) in Hh.
+    destruct (i_col c I h Hh) as [[d A]|[x [A B]]].
+    + left. exists d. eapply hs_chpend; eauto. intros j Hj. inv_pre Hj. simpl. tauto.
+    + right. exists x. split; auto. eapply hs_pend_bit; eauto.
+  - intros bm' a' Hl. change (c_leaf c' bm' a') with (c_leaf c bm' a') in Hl. change (c_summ c' bm') with (c_summ c bm').
+    destruct (i_leaf c I bm' a' Hl) as [A|[[l [A B]]|[u A]]]; auto.
+    + right; left. exists l. split; auto. apply Hin; auto. discriminate.
+    + right; right. exists u. apply Hkeepc; auto.
+  - intros bm' Hs. change (c_summ c' bm') with (c_summ c bm') in Hs.
+    destruct (i_summ c I bm' Hs) as [A|[[l [A B]]|[u A]]].
+    + right; left. exists (flat_map (cbms_of_slot c) (bits_of (c_top c))). split.
+      * rewrite Hc', updT_same. left. reflexivity.
+      * apply in_flat_map. exists (bm' mod 64). split.
+        -- apply bits_of_spec. split; auto. lia.
+        -- apply cbms_in. apply (i_summwf c I); auto.
+    + right; left. exists l. split; auto. apply Hin; auto. discriminate.
+    + right; right. exists u. apply Hkeepc; auto.
+  - intros Ht. exfalso. apply Ht. reflexivity.
+  - intros bm' a' Hl. rewrite (hs_creg c c') by reflexivity. apply (i_leafwf c I); auto.
+  - intros bm' Hs. rewrite (hs_creg c c') by reflexivity. apply (i_summwf c I); auto.
+  - eapply (hs_wf c c' main); eauto; try reflexivity. intros j Hj. inv_pre Hj. exact Logic.I.
+  - eapply (hs_drain c c' main); eauto. intros _. simpl. split; auto.
+    pose proof (i_drain c I) as D. rewrite Hc in D. simpl in D. tauto.
+  - eapply (hs_acc c c' main); eauto; reflexivity.
+  - eapply (hs_mainonly c c' main); eauto. intros j Hj Hn. congruence.
+  - eapply (hs_final c c'); eauto; reflexivity.
+  - eapply (hs_slab c c'); eauto; reflexivity.
+Qed.
+
+Lemma pres_summ_swap : forall c bm bms r,
+  CInv c -> c_cont c main = IBms (bm :: bms) :: r -> CInv (f_summ_swap c bm bms r).
+Proof.
+  intros c bm bms r I Hc.
+  set (new := [ILeaves bm (bits_of (c_summ c bm)); IBms bms]).
+  set (c' := f_summ_swap c bm bms r).
+  assert (Hc0 : c_cont c main = [IBms (bm :: bms)] ++ r) by exact Hc.
+  assert (Hpre : forall j, In j [IBms (bm :: bms)] -> j <> IRun /\ (forall l, j <> IHandlers l)).
+  { intros j Hj. inv_pre Hj. split; intros; discriminate. }
+  assert (Hc' : forall u, c_cont c' u = updT (c_cont c) main (new ++ r) u) by reflexivity.
+  assert (Hsumm : forall x, c_summ c' x = if x =? bm then 0 else c_summ c x) by reflexivity.
+  assert (Hkeepc : forall u k, cclimbing c u k -> cclimbing c' u k).
+  { intros u k Hk. destruct (Nat.eq_dec u main) as [->|Hn].
+    - apply (climbing_head_eq _ _ _ _ _ Hk) in Hc. discriminate.
+    - eapply hs_climbing_other; eauto. }
+  assert (Hin : forall j, In j (c_cont c main) -> j <> IBms (bm :: bms) -> In j (c_cont c' main)).
+  { intros j Hj Hn. eapply hs_in_main; eauto. intro P. inv_pre P. congruence. }
+  assert (Hrun : In IRun r).
+  { pose proof (i_drain c I) as D. rewrite Hc in D. simpl in D. apply D. reflexivity. }
+  constructor.
+  - intros h Hh. change (c_new c' h) with (c_new c h) in Hh.
+    destruct (i_new c I h Hh) as [A|[x [A B]]].
+    + left. eapply hs_chpend; eauto. intros j Hj. inv_pre Hj. simpl. tauto.
+    + right. exists x. split; auto.
+  - intros h Hh. change (c_col c' h) with (c_col c h) in Hh.
+    destruct (i_col c I h Hh) as [[d A]|[x [A B]]].
+    + left. exists d. eapply hs_chpend; eauto. intros j Hj. inv_pre Hj. simpl. tauto.
+    + right. exists x. split; auto. eapply hs_pend_bit; eauto.
+  - intros bm' a' Hl. change (c_leaf c' bm' a') with (c_leaf c bm' a') in Hl. rewrite Hsumm.
+    destruct (i_leaf c I bm' a' Hl) as [A|[[l [A B]]|[u A]]].
+    + destruct (Z.eqb_spec bm' bm) as [->|]; auto.
+      right; left. exists (bits_of (c_summ c bm)). split.
+      * rewrite Hc', updT_same. left. reflexivity.
+      * apply bits_of_spec. split; auto. apply (i_leafwf c I bm a'); auto.
+    + right; left. exists l. split; auto. apply Hin; auto. discriminate.
+    + right; right. exists u. apply Hkeepc; auto.
+  - intros bm' Hs. rewrite Hsumm in Hs. change (c_top c') with (c_top c).
+    destruct (Z.eq_dec bm' bm) as [E|Hne]; [subst bm'; rewrite Z.eqb_refl in Hs; congruence|].
+    rewrite (proj2 (Z.eqb_neq _ _) Hne) in Hs.
+    destruct (i_summ c I bm' Hs) as [A|[[l [A B]]|[u A]]]; auto.
+    + right; left. destruct (instr_IBms_dec l (bm :: bms)) as [->|Hd].
+      * exists bms. split; [rewrite Hc', updT_same; right; left; reflexivity|].
+        destruct B; [congruence|auto].
+      * exists l. split; auto. apply Hin; auto. congruence.
+    + right; right. exists u. apply Hkeepc; auto.
+  - intros Ht. change (c_top c') with (c_top c) in Ht. change (c_notif c') with (c_notif c).
+    destruct (i_top c I Ht) as [A|[A|[u A]]]; auto.
+    + right; left. apply Hin; auto. discriminate.
+    + right; right. exists u. apply Hkeepc; auto.
+  - intros bm' a' Hl. rewrite (hs_creg c c') by reflexivity. apply (i_leafwf c I); auto.
+  - intros bm' Hs. rewrite Hsumm in Hs. rewrite (hs_creg c c') by reflexivity.
+    destruct (bm' =? bm); [congruence|]. apply (i_summwf c I); auto.
+  - eapply (hs_wf c c' main); eauto; try reflexivity. intros j Hj. simpl in Hj. destruct Hj as [<-|[<-|[]]]; exact Logic.I.
+  - eapply (hs_drain c c' main); eauto. intros _. simpl.
+    pose proof (i_drain c I) as D. rewrite Hc in D. simpl in D. repeat split; auto; try tauto.
+  - eapply (hs_acc c c' main); eauto; reflexivity.
+  - eapply (hs_mainonly c c' main); eauto. intros j Hj Hn. congruence.
+  - eapply (hs_final c c'); eauto; reflexivity.
+  - eapply (hs_slab c c'); eauto; reflexivity.
+Qed.
+
+Lemma cg_collect_new : forall s bits g h,
+  fst (cg_collect s bits g) h = true -> fst g h = true /\ forall x, In x bits -> slab_get s x <> Some h.
+Proof.
+  induction bits as [|b bits IH]; intros g h H; simpl in *; auto.
+  destruct (slab_get s b) as [h0|] eqn:E.
+  - apply IH in H. simpl in H. destruct H as [H1 H2].
+    destruct (hkind_eqb h h0) eqn:Eh.
+    + apply hkind_eqb_eq in Eh. subst. rewrite updH_same in H1. discriminate.
+    + assert (h <> h0) by (intro; subst; rewrite hkind_eqb_refl in Eh; discriminate).
+      rewrite updH_other in H1 by auto. split; auto.
+      intros x [<-|Hx]; auto. rewrite E. congruence.
+  - apply IH in H. destruct H as [H1 H2]. split; auto.
+    intros x [<-|Hx]; auto. rewrite E. discriminate.
+Qed.
+
+Lemma cg_collect_col : forall s bits g h,
+  snd (cg_collect s bits g) h = true -> snd g h = true \/ exists x, In x bits /\ slab_get s x = Some h.
+Proof.
+  induction bits as [|b bits IH]; intros g h H; simpl in *; auto.
+  destruct (slab_get s b) as [h0|] eqn:E.
+  - apply IH in H. simpl in H. destruct H as [H|[x [A B]]]; [|right; exists x; auto].
+    destruct (hkind_eqb h h0) eqn:Eh.
+    + apply hkind_eqb_eq in Eh. subst. right. exists b. auto.
+    + assert (h <> h0) by (intro; subst; rewrite hkind_eqb_refl in Eh; discriminate).
+      rewrite updH_other in H by auto. auto.
+  - apply IH in H. destruct H as [H|[x [A B]]]; auto. right. exists x. auto.
+Qed.
+
+Lemma slot_decomp : forall x, 0 <= x -> 64 * (x mod 4096 / 64) + x mod 64 + 4096 * (x / 4096) = x.
+Proof. intros. lia. Qed.
+
+(** every occupied slot of a leaf whose bit is set is among the bits collected from that leaf *)
+Lemma collected_in : forall c x h, SInv c -> slab_get (c_sl c) x = Some h -> bitset c x ->
+  In x (fst (collect (c_base c (x / 4096)) (x mod 4096 / 64) (c_leaf c (x / 4096) (x mod 4096 / 64)))).
+Proof.
+  intros c x h S Hg Hb. apply slab_get_some in Hg. destruct Hg as [Hx _].
+  assert (Hreg : creg c (x / 4096) = true) by (apply creg_iff; auto; lia).
+  destruct (creg_bound c _ S Hreg) as [Hb0 Hb1].
+  rewrite (s_base c S _ Hreg). rewrite collect_spec by lia. cbn [fst].
+  apply in_map_iff. exists (x mod 64). split; [apply slot_decomp; lia|].
+  apply bits_of_spec. split; [lia|]. exact Hb.
+Qed.
+
+Lemma f_leaf_swap_new : forall c bm a ls r h,
+  c_new (f_leaf_swap c bm a ls r) h =
+  fst (cg_collect (c_sl c) (fst (collect (c_base c bm) a (c_leaf c bm a))) (c_new c, c_col c)) h.
+Proof. reflexivity. Qed.
+Lemma f_leaf_swap_col : forall c bm a ls r h,
+  c_col (f_leaf_swap c bm a ls r) h =
+  snd (cg_collect (c_sl c) (fst (collect (c_base c bm) a (c_leaf c bm a))) (c_new c, c_col c)) h.
+Proof. reflexivity. Qed.
+Lemma f_leaf_swap_acc : forall c bm a ls r,
+  c_acc (f_leaf_swap c bm a ls r) = c_acc c ++ fst (collect (c_base c bm) a (c_leaf c bm a)).
+Proof. reflexivity. Qed.
+
+Lemma pres_leaf_swap : forall c bm a ls r,
+  CInv c -> c_cont c main = ILeaves bm (a :: ls) :: r -> CInv (f_leaf_swap c bm a ls r).
+Proof.
+  intros c bm a ls r I Hc.
+  pose proof (i_slab c I) as S.
+  set (old := c_leaf c bm a).
+  set (bits := fst (collect (c_base c bm) a old)).
+  set (new := [ILeaves bm ls]).
+  set (c' := f_leaf_swap c bm a ls r).
+  assert (Hc0 : c_cont c main = [ILeaves bm (a :: ls)] ++ r) by exact Hc.
+  assert (Hpre : forall j, In j [ILeaves bm (a :: ls)] -> j <> IRun /\ (forall l, j <> IHandlers l)).
+  { intros j Hj. inv_pre Hj. split; intros; discriminate. }
+  assert (Hc' : forall u, c_cont c' u = updT (c_cont c) main (new ++ r) u) by reflexivity.
+  assert (Hleaf : forall x y, c_leaf c' x y = if (x =? bm) && (y =? a) then 0 else c_leaf c x y) by reflexivity.
+  assert (Hacc : c_acc c' = c_acc c ++ bits) by apply f_leaf_swap_acc.
+  assert (Hkeepc : forall u k, cclimbing c u k -> cclimbing c' u k).
+  { intros u k Hk. destruct (Nat.eq_dec u main) as [->|Hn].
+    - apply (climbing_head_eq _ _ _ _ _ Hk) in Hc. discriminate.
+    - eapply hs_climbing_other; eauto. }
+  assert (Hin : forall j, In j (c_cont c main) -> j <> ILeaves bm (a :: ls) -> In j (c_cont c' main)).
+  { intros j Hj Hn. eapply hs_in_main; eauto. intro P. inv_pre P. congruence. }
+  assert (Hrun : In IRun r).
+  { pose proof (i_drain c I) as D. rewrite Hc in D. simpl in D. apply D. reflexivity. }
+  assert (Hpb : forall x, cpend_bit c x -> cpend_bit c' x).
+  { intros x [A|[l [A B]]]; [left; rewrite Hacc; apply in_or_app; auto|].
+    right. exists l. split; auto. apply Hin; auto. discriminate. }
+  assert (Hcollected : forall x h, slab_get (c_sl c) x = Some h -> bitset c x ->
+                                   x / 4096 = bm -> x mod 4096 / 64 = a -> In x bits).
+  { intros x h Hg Hb E1 E2. unfold bits, old. subst bm a. eapply collected_in; eauto. }
+  constructor.
+  - intros h Hh. unfold c' in Hh. rewrite f_leaf_swap_new in Hh.
+    apply cg_collect_new in Hh. cbn [fst] in Hh. destruct Hh as [Hn Hnot].
+    destruct (i_new c I h Hn) as [A|[x [A B]]].
+    + left. eapply hs_chpend; eauto. intros j Hj. inv_pre Hj. simpl. tauto.
+    + right. exists x. split; auto. unfold bitset. rewrite Hleaf.
+      destruct ((x / 4096 =? bm) && (x mod 4096 / 64 =? a)) eqn:E; auto.
+      apply andb_true_iff in E. destruct E as [E1 E2]. apply Z.eqb_eq in E1, E2.
+      exfalso. apply (Hnot x); auto. eapply Hcollected; eauto.
+  - intros h Hh. unfold c' in Hh. rewrite f_leaf_swap_col in Hh.
+    apply cg_collect_col in Hh. cbn [snd] in Hh. destruct Hh as [Hcol|[x [A B]]].
+    + destruct (i_col c I h Hcol) as [[d A]|[x [A B]]].
+      * left. exists d. eapply hs_chpend; eauto. intros j Hj. inv_pre Hj. simpl. tauto.
+      * right. exists x. split; auto.
+    + right. exists x. split; auto. left. rewrite Hacc. apply in_or_app. auto.
+  - intros bm' a' Hl. rewrite Hleaf in Hl. change (c_summ c' bm') with (c_summ c bm').
+    destruct ((bm' =? bm) && (a' =? a)) eqn:E; [congruence|].
+    destruct (i_leaf c I bm' a' Hl) as [A|[[l [A B]]|[u A]]]; auto.
+    + right; left. destruct (instr_IBms_dec l (a :: ls)) as [->|Hd].
+      * destruct (Z.eq_dec bm' bm) as [->|Hnb].
+        -- exists ls. split; [rewrite Hc', updT_same; left; reflexivity|].
+           destruct B as [<-|B]; auto. rewrite !Z.eqb_refl in E. discriminate.
+        -- exists (a :: ls). split; auto. apply Hin; auto. congruence.
+      * exists l. split; auto. apply Hin; auto. congruence.
+    + right; right. exists u. apply Hkeepc; auto.
+  - intros bm' Hs. change (c_summ c' bm') with (c_summ c bm') in Hs. change (c_top c') with (c_top c).
+    destruct (i_summ c I bm' Hs) as [A|[[l [A B]]|[u A]]]; auto.
+    + right; left. exists l. split; auto. apply Hin; auto. discriminate.
+    + right; right. exists u. apply Hkeepc; auto.
+  - intros Ht. change (c_top c') with (c_top c) in Ht. change (c_notif c') with (c_notif c).
+    destruct (i_top c I Ht) as [A|[A|[u A]]]; auto.
+    + right; left. apply Hin; auto. discriminate.
+    + right; right. exists u. apply Hkeepc; auto.
+  - intros bm' a' Hl. rewrite Hleaf in Hl. rewrite (hs_creg c c') by reflexivity.
+    destruct ((bm' =? bm) && (a' =? a)); [congruence|]. apply (i_leafwf c I); auto.
+  - intros bm' Hs. rewrite (hs_creg c c') by reflexivity. apply (i_summwf c I); auto.
+  - eapply (hs_wf c c' main); eauto; try reflexivity. intros j Hj. inv_pre Hj. exact Logic.I.
+  - eapply (hs_drain c c' main); eauto. intros _. simpl.
+    pose proof (i_drain c I) as D. rewrite Hc in D. simpl in D. tauto.
+  - intros _. rewrite Hc', updT_same. simpl. right. auto.
+  - eapply (hs_mainonly c c' main); eauto. intros j Hj Hn. congruence.
+  - eapply (hs_final c c'); eauto; reflexivity.
+  - eapply (hs_slab c c'); eauto; reflexivity.
+Qed.
+
+(** ** start of [poll_wake] *)
+Lemma pres_poll_begin : forall c, CInv c -> c_cont c main = [] -> CInv (f_poll_begin c).
+Proof.
+  intros c I Hc.
+  set (c' := f_poll_begin c).
+  assert (Hc' : forall u, c_cont c' u = updT (c_cont c) main [ITopSwap; IRun] u) by reflexivity.
+  assert (Hacc0 : c_acc c = []).
+  { destruct (c_acc c) eqn:E; auto. exfalso. assert (A : c_acc c <> []) by congruence.
+    apply (i_acc c I) in A. rewrite Hc in A. destruct A. }
+  assert (Hkeepc : forall u k, cclimbing c u k -> cclimbing c' u k).
+  { intros u k [r' Hk]. destruct (Nat.eq_dec u main) as [->|Hn]; [rewrite Hc in Hk; discriminate|].
+    exists r'. rewrite Hc', updT_other by auto. auto. }
+  assert (Hnomain : forall j, ~ In j (c_cont c main)) by (intro j; rewrite Hc; auto).
+  constructor.
+  - intros h Hh. change (c_new c' h) with (c_new c h) in Hh.
+    destruct (i_new c I h Hh) as [[j [A _]]|[x [A B]]]; [exfalso; eapply Hnomain; eauto|].
+    right. exists x. split; auto.
+  - intros h Hh. change (c_col c' h) with (c_col c h) in Hh.
+    destruct (i_col c I h Hh) as [[d [j [A _]]]|[x [A [B|[l [B _]]]]]]; exfalso.
+    + eapply Hnomain; eauto.
+    + rewrite Hacc0 in B. destruct B.
+    + eapply Hnomain; eauto.
+  - intros bm' a' Hl. change (c_leaf c' bm' a') with (c_leaf c bm' a') in Hl. change (c_summ c' bm') with (c_summ c bm').
+    destruct (i_leaf c I bm' a' Hl) as [A|[[l [A B]]|[u A]]]; auto.
+    + exfalso; eapply Hnomain; eauto.
+    + right; right. exists u. auto.
+  - intros bm' Hs. change (c_summ c' bm') with (c_summ c bm') in Hs. change (c_top c') with (c_top c).
+    destruct (i_summ c I bm' Hs) as [A|[[l [A B]]|[u A]]]; auto.
+    + exfalso; eapply Hnomain; eauto.
+    + right; right. exists u. auto.
+  - intros _. right; left. unfold cpend_top. rewrite Hc', updT_same. left. reflexivity.
+  - intros bm' a' Hl. apply (i_leafwf c I); auto.
+  - intros bm' Hs. apply (i_summwf c I); auto.
+  - intros t i Hi. rewrite Hc' in Hi. destruct (Nat.eq_dec t main) as [->|Hn].
+    + rewrite updT_same in Hi. simpl in Hi. destruct Hi as [<-|[<-|[]]]; exact Logic.I.
+    + rewrite updT_other in Hi by auto. apply (i_wf c I t i Hi).
+  - rewrite Hc', updT_same. simpl. repeat split; auto; discriminate.
+  - intros A. exfalso. apply A. reflexivity.
+  - intros t Ht i Hi. rewrite Hc', updT_other in Hi by auto. eapply (i_mainonly c I); eauto.
+  - apply (i_final c I).
+  - eapply SInv_same; [| | |apply (i_slab c I)]; reflexivity.
+Qed.
+
+(** ** generic step: the head of one continuation is replaced by instructions that do not belong
+    to the bitmap protocol; ghost flags may only be cleared *)
+Lemma hstart_hinstrs : forall h d, h <> HReserved \/ d = false -> exists i, In i (hinstrs h d) /\ hstart i h d.
+Proof.
+  intros [w| |ch|p] d Hd; simpl; eexists; (split; [left; reflexivity|]); simpl; auto.
+  destruct Hd; [congruence|auto].
+Qed.
+
+Lemma pres_benign : forall c t pre r new gn gc,
+  CInv c ->
+  c_cont c t = pre ++ r ->
+  ((pre = [] /\ r = []) \/ exists i, pre = [i] /\ consumable i) ->
+  (forall j, In j new -> newok c t j) ->
+  (forall h, gn h = true -> c_new c h = true) ->
+  (forall h, gc h = true -> c_col c h = true) ->
+  (forall i h d, In i pre -> hstart i h d -> gc h = false /\ (d = true -> gn h = false)) ->
+  CInv (f_benign c t (new ++ r) gn gc).
+Proof.
+  intros c t pre r new gn gc I Hc Hshape Hnew Hgn Hgc Hclr.
+  set (c' := f_benign c t (new ++ r) gn gc).
+  assert (Hpre : forall j, In j pre -> j <> IRun /\ (forall l, j <> IHandlers l)).
+  { intros j Hj. destruct Hshape as [[-> _]|[i [-> Hi]]]; [destruct Hj|]. inv_pre Hj.
+    destruct i; simpl in Hi; try contradiction; split; intros; discriminate. }
+  assert (Hprec : forall j, In j pre -> consumable j).
+  { intros j Hj. destruct Hshape as [[-> _]|[i [-> Hi]]]; [destruct Hj|]. inv_pre Hj. auto. }
+  assert (Hc' : forall u, c_cont c' u = updT (c_cont c) t (new ++ r) u) by reflexivity.
+  assert (Hnoclimb : forall u k, cclimbing c u k -> u <> t).
+  { intros u k [r' Hk] ->. rewrite Hc in Hk.
+    destruct Hshape as [[-> ->]|[i [-> Hi]]]; [discriminate|]. simpl in Hk. inversion Hk; subst. exact Hi. }
+  assert (Hkeepc : forall u k, cclimbing c u k -> cclimbing c' u k).
+  { intros u k Hk. eapply hs_climbing_other; eauto. }
+  assert (Hin : forall j, In j (c_cont c main) -> ~ consumable j -> In j (c_cont c' main)).
+  { intros j Hj Hn. eapply hs_in_main; eauto. }
+  assert (Hnewwf : forall j, In j new -> wfinstr c j).
+  { intros j Hj. apply Hnew in Hj. destruct j as [k| | | | | | | | | | | | |]; simpl in *; auto.
+    destruct k; simpl in *; tauto. }
+  assert (Hnewnd : forall j, In j new -> is_drain j = false).
+  { intros j Hj. apply Hnew in Hj. destruct j; simpl in *; tauto. }
+  assert (Hnewmo : forall j, In j new -> t <> main -> main_only j = false).
+  { intros j Hj Hn. apply Hnew in Hj. destruct j as [k| | | | | | | | | | | | |]; simpl in *; auto; tauto. }
+  constructor.
+  - intros h Hh. change (c_new c' h) with (gn h) in Hh. pose proof (Hgn h Hh) as Hn.
+    destruct (i_new c I h Hn) as [[j [A B]]|[x [A B]]].
+    + left. exists j. split; auto. eapply hs_in_main; eauto. intro P.
+      destruct (Hclr j h true P B) as [_ C]. rewrite C in Hh by auto. discriminate.
+    + right. exists x. split; auto.
+  - intros h Hh. change (c_col c' h) with (gc h) in Hh. pose proof (Hgc h Hh) as Hn.
+    destruct (i_col c I h Hn) as [[d [j [A B]]]|[x [A B]]].
+    + left. exists d. exists j. split; auto. eapply hs_in_main; eauto. intro P.
+      destruct (Hclr j h d P B) as [C _]. rewrite C in Hh. discriminate.
+    + right. exists x. split; auto. eapply hs_pend_bit; eauto.
+  - intros bm' a' Hl. change (c_leaf c' bm' a') with (c_leaf c bm' a') in Hl. change (c_summ c' bm') with (c_summ c bm').
+    destruct (i_leaf c I bm' a' Hl) as [A|[[l [A B]]|[u A]]]; auto.
+    + right; left. exists l. split; auto.
+    + right; right. exists u. auto.
+  - intros bm' Hs. change (c_summ c' bm') with (c_summ c bm') in Hs. change (c_top c') with (c_top c).
+    destruct (i_summ c I bm' Hs) as [A|[[l [A B]]|[u A]]]; auto.
+    + right; left. exists l. split; auto.
+    + right; right. exists u. auto.
+  - intros Ht. change (c_top c') with (c_top c) in Ht. change (c_notif c') with (c_notif c).
+    destruct (i_top c I Ht) as [A|[A|[u A]]]; auto.
+    + right; left. apply Hin; auto.
+    + right; right. exists u. auto.
+  - intros bm' a' Hl. apply (i_leafwf c I); auto.
+  - intros bm' Hs. apply (i_summwf c I); auto.
   - eapply (hs_wf c c' t); eauto; reflexivity.
-  - eapply (hs_drain c c' t); eauto.
+  - eapply (hs_drain c c' t); eauto. eapply drain_replace; eauto.
   - eapply (hs_acc c c' t); eauto; reflexivity.
   - eapply (hs_mainonly c c' t); eauto.
   - eapply (hs_final c c'); eauto; reflexivity.
   - eapply (hs_slab c c'); eauto; reflexivity.
+Qed.
+
+(** ** thread-local normalisation of the main thread (one rewriting step) *)
+Definition normable (j : instr) : Prop :=
+  match j with
+  | IRun | IHandlers _ | IDels _ | IBms [] | ILeaves _ [] => True
+  | _ => False
+  end.
+Definition norm_new_ok (j : instr) : Prop :=
+  match j with IClimb _ | ITopSwap | IBms _ | ILeaves _ _ | IRun => False | _ => True end.
+
+Lemma pres_main_rewrite : forall c s' acc' i r new,
+  CInv c ->
+  c_cont c main = i :: r ->
+  normable i ->
+  (forall j, In j new -> norm_new_ok j) ->
+  let c' := set_norm c s' acc' (new ++ r) in
+  (forall h x, slab_get (c_sl c) x = Some h -> slab_get s' x = Some h \/ chpend c' h true) ->
+  (forall x h, cpend_bit c x -> slab_get (c_sl c) x = Some h ->
+               (cpend_bit c' x /\ slab_get s' x = Some h) \/ exists d, chpend c' h d) ->
+  (acc' <> [] -> In IRun (new ++ r)) ->
+  SInv c' ->
+  CInv c'.
+Proof.
+  intros c s' acc' i r new I Hc Hi Hnew c' Hsl Hpb Hacc S'.
+  assert (Hc0 : c_cont c main = [i] ++ r) by exact Hc.
+  assert (Hc' : forall u, c_cont c' u = updT (c_cont c) main (new ++ r) u) by reflexivity.
+  assert (Hkeepc : forall u k, cclimbing c u k -> cclimbing c' u k).
+  { intros u k Hk. destruct (Nat.eq_dec u main) as [->|Hn].
+    - apply (climbing_head_eq _ _ _ _ _ Hk) in Hc. subst i. destruct Hi.
+    - destruct Hk as [r' Hk]. exists r'. rewrite Hc', updT_other by auto. auto. }
+  assert (Hin : forall j, In j (c_cont c main) -> j <> i -> In j (c_cont c' main)).
+  { intros j Hj Hn. rewrite Hc', updT_same. rewrite Hc in Hj. destruct Hj as [->|Hj]; [congruence|].
+    apply in_or_app. auto. }
+  assert (Hhp : forall h d, chpend c h d -> chpend c' h d).
+  { intros h d [j [A B]]. exists j. split; auto. apply Hin; auto. intro; subst j.
+    destruct i as [k| |[|]|? [|]| | | |? []|? []| | | | |]; simpl in Hi, B; try contradiction. }
+  assert (Hcreg : forall bm, creg c' bm = creg c bm) by reflexivity.
+  constructor.
+  - intros h Hh. change (c_new c' h) with (c_new c h) in Hh.
+    destruct (i_new c I h Hh) as [A|[x [A B]]]; auto.
+    destruct (Hsl h x A) as [C|C]; auto. right. exists x. split; auto.
+  - intros h Hh. change (c_col c' h) with (c_col c h) in Hh.
+    destruct (i_col c I h Hh) as [[d A]|[x [A B]]]; [left; exists d; auto|].
+    destruct (Hpb x h B A) as [[C D]|C]; auto. right. exists x. split; auto.
+  - intros bm' a' Hl. change (c_leaf c' bm' a') with (c_leaf c bm' a') in Hl. change (c_summ c' bm') with (c_summ c bm').
+    destruct (i_leaf c I bm' a' Hl) as [A|[[l [A B]]|[u A]]]; auto.
+    + right; left. exists l. split; auto. apply Hin; auto. intro; subst i.
+      destruct l; simpl in Hi; [destruct B|contradiction].
+    + right; right. exists u. auto.
+  - intros bm' Hs. change (c_summ c' bm') with (c_summ c bm') in Hs. change (c_top c') with (c_top c).
+    destruct (i_summ c I bm' Hs) as [A|[[l [A B]]|[u A]]]; auto.
+    + right; left. exists l. split; auto. apply Hin; auto. intro; subst i.
+      destruct l; simpl in Hi; [destruct B|contradiction].
+    + right; right. exists u. auto.
+  - intros Ht. change (c_top c') with (c_top c) in Ht. change (c_notif c') with (c_notif c).
+    destruct (i_top c I Ht) as [A|[A|[u A]]]; auto.
+    + right; left. apply Hin; auto. intro; subst i. destruct Hi.
+    + right; right. exists u. auto.
+  - intros bm' a' Hl. rewrite Hcreg. apply (i_leafwf c I); auto.
+  - intros bm' Hs. rewrite Hcreg. apply (i_summwf c I); auto.
+  - intros t j Hj. rewrite Hc' in Hj.
+    assert (W : wfinstr c j).
+    { destruct (Nat.eq_dec t main) as [->|Hn].
+      - rewrite updT_same in Hj. apply in_app_or in Hj. destruct Hj as [Hj|Hj].
+        + apply Hnew in Hj. destruct j; simpl in *; auto. contradiction.
+        + apply (i_wf c I main). rewrite Hc. right. auto.
+      - rewrite updT_other in Hj by auto. apply (i_wf c I t j Hj). }
+    destruct j as [k| | | | | | | | | | | | |]; simpl in *; auto.
+  - rewrite Hc', updT_same. apply drain_ok_app_nd.
+    + intros j Hj. apply Hnew in Hj. destruct j; simpl in *; auto; contradiction.
+    + pose proof (i_drain c I) as D. rewrite Hc in D. simpl in D. tauto.
+  - change (c_acc c') with acc'. rewrite Hc', updT_same. exact Hacc.
+  - intros t Ht j Hj. rewrite Hc', updT_other in Hj by auto. eapply (i_mainonly c I); eauto.
+  - apply (i_final c I).
+  - exact S'.
+Qed.
+
+Lemma set_norm_cont_main : forall c s acc k, c_cont (set_norm c s acc k) main = k.
+Proof. intros. unfold set_norm. simpl. apply updT_same. Qed.
+
+Lemma pend_bit_keep : forall c s i r new x,
+  c_cont c main = i :: r -> (forall l, i <> IHandlers l) ->
+  cpend_bit c x -> cpend_bit (set_norm c s (c_acc c) (new ++ r)) x.
+Proof.
+  intros c s i r new x Hc Hi [A|[l [A B]]]; [left; auto|].
+  right. exists l. split; auto. rewrite set_norm_cont_main. rewrite Hc in A.
+  destruct A as [->|A]; [exfalso; eapply Hi; eauto|]. apply in_or_app. auto.
+Qed.
+
+Lemma chpend_new : forall c s acc new r h d,
+  (exists i, In i new /\ hstart i h d) -> chpend (set_norm c s acc (new ++ r)) h d.
+Proof.
+  intros c s acc new r h d [i [A B]]. exists i. split; auto. rewrite set_norm_cont_main. apply in_or_app. auto.
+Qed.
+
+Lemma hinstrs_ok : forall h d j, In j (hinstrs h d) -> norm_new_ok j.
+Proof. intros [w| |ch|p] d j Hj; simpl in Hj; destruct Hj as [<-|[]]; exact Logic.I. Qed.
+
+Lemma pres_norm1 : forall c c', CInv c -> f_norm1 c = Some c' -> CInv c'.
+Proof.
+  intros c c' I H. unfold f_norm1 in H.
+  pose proof (i_slab c I) as S.
+  assert (Sany : forall acc k, SInv (set_norm c (c_sl c) acc k)).
+  { intros. eapply SInv_same; [| | |exact S]; reflexivity. }
+  destruct (c_cont c main) as [|i r] eqn:Hc; [discriminate|].
+  destruct i as [k| |[|bm bms]|bm [|a ls]| |[|b bs]|[|b bs]| | | | | | |]; try discriminate.
+  - (* IBms [] *)
+    inversion H; subst c'; clear H.
+    apply (pres_main_rewrite c (c_sl c) (c_acc c) (IBms []) r []); auto; try exact Logic.I.
+    + intros j [].
+    + intros x h Hp Hg. left. split; auto. apply (pend_bit_keep c (c_sl c) _ r [] x Hc); auto. discriminate.
+    + intro A. apply (i_acc c I) in A. rewrite Hc in A. destruct A; [discriminate|auto].
+  - (* ILeaves _ [] *)
+    inversion H; subst c'; clear H.
+    apply (pres_main_rewrite c (c_sl c) (c_acc c) (ILeaves bm []) r []); auto; try exact Logic.I.
+    + intros j [].
+    + intros x h Hp Hg. left. split; auto. apply (pend_bit_keep c (c_sl c) _ r [] x Hc); auto. discriminate.
+    + intro A. apply (i_acc c I) in A. rewrite Hc in A. destruct A; [discriminate|auto].
+  - (* IRun *)
+    inversion H; subst c'; clear H.
+    apply (pres_main_rewrite c (c_sl c) [] IRun r [IHandlers (c_acc c)]); auto; try exact Logic.I.
+    + intros j Hj. inv_pre Hj. exact Logic.I.
+    + intros x h Hp Hg. left. split; auto. right. destruct Hp as [A|[l [A B]]].
+      * exists (c_acc c). split; auto. rewrite set_norm_cont_main. left. reflexivity.
+      * exists l. split; auto. rewrite set_norm_cont_main. rewrite Hc in A. destruct A as [A|A]; [discriminate|]. right. auto.
+    + intro A. exfalso. apply A. reflexivity.
+  - (* IHandlers [] *)
+    inversion H; subst c'; clear H.
+    apply (pres_main_rewrite c (c_sl c) (c_acc c) (IHandlers []) r []); auto; try exact Logic.I.
+    + intros j [].
+    + intros x h Hp Hg. left. split; auto. destruct Hp as [A|[l [A B]]]; [left; auto|].
+      right. exists l. split; auto. rewrite set_norm_cont_main. rewrite Hc in A.
+      destruct A as [A|A]; auto. inversion A; subst. destruct B.
+    + intro A. apply (i_acc c I) in A. rewrite Hc in A. destruct A; [discriminate|auto].
+  - (* IHandlers (b :: bs) *)
+    destruct (slab_get (c_sl c) b) as [h|] eqn:Hg; inversion H; subst c'; clear H.
+    + replace (hinstrs h false ++ IHandlers bs :: r) with ((hinstrs h false ++ [IHandlers bs]) ++ r)
+        by (rewrite <- app_assoc; reflexivity).
+      apply (pres_main_rewrite c (c_sl c) (c_acc c) (IHandlers (b :: bs)) r (hinstrs h false ++ [IHandlers bs])); auto; try exact Logic.I.
+      * intros j Hj. apply in_app_or in Hj. destruct Hj as [Hj|Hj]; [eapply hinstrs_ok; eauto|inv_pre Hj; exact Logic.I].
+      * intros x h' Hp Hg'. destruct Hp as [A|[l [A B]]]; [left; split; auto; left; auto|].
+        rewrite Hc in A. destruct A as [A|A].
+        -- inversion A; subst l. destruct B as [<-|B].
+           ++ right. exists false. apply chpend_new.
+              assert (h' = h) by congruence. subst h'.
+              destruct (hstart_hinstrs h false) as [i [P Q]]; auto. exists i. split; auto. apply in_or_app. auto.
+           ++ left. split; auto. right. exists bs. split; auto. rewrite set_norm_cont_main.
+              apply in_or_app. left. apply in_or_app. right. left. reflexivity.
+        -- left. split; auto. right. exists l. split; auto. rewrite set_norm_cont_main. apply in_or_app. auto.
+      * intro A. apply (i_acc c I) in A. rewrite Hc in A. destruct A; [discriminate|]. apply in_or_app. auto.
+    + apply (pres_main_rewrite c (c_sl c) (c_acc c) (IHandlers (b :: bs)) r [IHandlers bs]); auto; try exact Logic.I.
+      * intros j Hj. inv_pre Hj. exact Logic.I.
+      * intros x h' Hp Hg'. left. split; auto. destruct Hp as [A|[l [A B]]]; [left; auto|].
+        right. rewrite Hc in A. destruct A as [A|A].
+        -- inversion A; subst l. destruct B as [<-|B]; [congruence|].
+           exists bs. split; auto. rewrite set_norm_cont_main. left. reflexivity.
+        -- exists l. split; auto. rewrite set_norm_cont_main. right. auto.
+      * intro A. apply (i_acc c I) in A. rewrite Hc in A. destruct A; [discriminate|]. right. auto.
+  - (* IDels [] *)
+    inversion H; subst c'; clear H.
+    apply (pres_main_rewrite c (c_sl c) (c_acc c) (IDels []) r []); auto; try exact Logic.I.
+    + intros j [].
+    + intros x h Hp Hg. left. split; auto. apply (pend_bit_keep c (c_sl c) _ r [] x Hc); auto. discriminate.
+    + intro A. apply (i_acc c I) in A. rewrite Hc in A. destruct A; [discriminate|auto].
+  - (* IDels (b :: bs) *)
+    destruct (wh_del (c_sl c) b) as [[h s']|] eqn:Hd; inversion H; subst c'; clear H.
+    + apply wh_del_some in Hd. destruct Hd as [Hbm [Hg ->]].
+      assert (Hres : h <> HReserved) by (eapply occ_not_reserved; eauto).
+      replace (hinstrs h true ++ IDels bs :: r) with ((hinstrs h true ++ [IDels bs]) ++ r)
+        by (rewrite <- app_assoc; reflexivity).
+      assert (Hhp : chpend (set_norm c (slab_remove (c_sl c) b) (c_acc c) ((hinstrs h true ++ [IDels bs]) ++ r)) h true).
+      { apply chpend_new. destruct (hstart_hinstrs h true) as [i [P Q]]; auto. exists i. split; auto. apply in_or_app. auto. }
+      apply (pres_main_rewrite c (slab_remove (c_sl c) b) (c_acc c) (IDels (b :: bs)) r (hinstrs h true ++ [IDels bs])); auto; try exact Logic.I.
+      * intros j Hj. apply in_app_or in Hj. destruct Hj as [Hj|Hj]; [eapply hinstrs_ok; eauto|inv_pre Hj; exact Logic.I].
+      * intros h' x Hg'. destruct (Z.eq_dec x b) as [->|Hne].
+        -- right. assert (h' = h) by congruence. subst. exact Hhp.
+        -- left. rewrite slab_get_remove_other; auto.
+      * intros x h' Hp Hg'. destruct (Z.eq_dec x b) as [->|Hne].
+        -- right. exists true. assert (h' = h) by congruence. subst. exact Hhp.
+        -- left. split; [|rewrite slab_get_remove_other; auto].
+           apply (pend_bit_keep c _ _ r _ x Hc); auto. discriminate.
+      * intro A. apply (i_acc c I) in A. rewrite Hc in A. destruct A; [discriminate|]. apply in_or_app. auto.
+      * eapply (SInv_remove c); eauto; reflexivity.
+    + apply (pres_main_rewrite c (c_sl c) (c_acc c) (IDels (b :: bs)) r [IDels bs]); auto; try exact Logic.I.
+      * intros j Hj. inv_pre Hj. exact Logic.I.
+      * intros x h' Hp Hg'. left. split; auto. apply (pend_bit_keep c (c_sl c) _ r [IDels bs] x Hc); auto. discriminate.
+      * intro A. apply (i_acc c I) in A. rewrite Hc in A. destruct A; [discriminate|]. right. auto.
+Qed.
+
+(** ** [WakeHandlers::add] *)
+Lemma c_add_same : forall c h c' wi, c_add c h = Some (c', wi) ->
+  c_top c' = c_top c /\ c_summ c' = c_summ c /\ c_leaf c' = c_leaf c /\ c_notif c' = c_notif c /\
+  c_new c' = c_new c /\ c_col c' = c_col c /\ c_cont c' = c_cont c /\ c_acc c' = c_acc c /\ c_final c' = c_final c.
+Proof.
+  intros c h c' wi H. unfold c_add in H.
+  destruct (slab_insert (c_sl c) h) as [bit0 s0].
+  destruct (add_loop 2 s0 h bit0) as [[[bit base] s1]|]; [|discriminate].
+  destruct (waker_vec_index bit); [|discriminate]. destruct (waker_slot bit); [|discriminate].
+  inversion H; subst. cbn. repeat split; reflexivity.
+Qed.
+
+Lemma pres_add : forall c h c' wi, CInv c -> h <> HReserved -> c_add c h = Some (c', wi) -> CInv c'.
+Proof.
+  intros c h c' wi I Hh Ha.
+  pose proof (i_slab c I) as S.
+  pose proof (c_add_spec c h c' wi S Hh Ha) as P.
+  destruct (c_add_same c h c' wi Ha) as [Et [Es [El [En [Eg1 [Eg2 [Ec [Ea Ef]]]]]]]].
+  pose proof (ap_inv _ _ _ _ P) as S'.
+  assert (Hreg : forall bm, creg c bm = true -> creg c' bm = true).
+  { intros bm Hr. apply creg_iff; auto. apply creg_iff in Hr; auto. pose proof (ap_len _ _ _ _ P). lia. }
+  assert (Hcl : forall t k, cclimbing c' t k <-> cclimbing c t k) by (intros; unfold cclimbing; rewrite Ec; tauto).
+  assert (Hbs : forall x, bitset c' x <-> bitset c x) by (intros; unfold bitset; rewrite El; tauto).
+  assert (Hhp : forall h0 d, chpend c' h0 d <-> chpend c h0 d) by (intros; unfold chpend; rewrite Ec; tauto).
+  assert (Hpb : forall x, cpend_bit c' x <-> cpend_bit c x) by (intros; unfold cpend_bit; rewrite Ec, Ea; tauto).
+  constructor.
+  - intros h0 H0. rewrite Eg1 in H0. destruct (i_new c I h0 H0) as [A|[x [A B]]].
+    + left. apply Hhp; auto.
+    + right. exists x. split; [apply (ap_old _ _ _ _ P); auto|apply Hbs; auto].
+  - intros h0 H0. rewrite Eg2 in H0. destruct (i_col c I h0 H0) as [[d A]|[x [A B]]].
+    + left. exists d. apply Hhp; auto.
+    + right. exists x. split; [apply (ap_old _ _ _ _ P); auto|apply Hpb; auto].
+  - intros bm a Hl. rewrite El in Hl. rewrite Es.
+    destruct (i_leaf c I bm a Hl) as [A|[A|[t A]]]; auto.
+    + right; left. unfold cpend_leaf in *. rewrite Ec. auto.
+    + right; right. exists t. apply Hcl; auto.
+  - intros bm Hs. rewrite Es in Hs. rewrite Et.
+    destruct (i_summ c I bm Hs) as [A|[A|[t A]]]; auto.
+    + right; left. unfold cpend_bm in *. rewrite Ec. auto.
+    + right; right. exists t. apply Hcl; auto.
+  - intros Ht. rewrite Et in Ht. rewrite En.
+    destruct (i_top c I Ht) as [A|[A|[t A]]]; auto.
+    + right; left. unfold cpend_top in *. rewrite Ec. auto.
+    + right; right. exists t. apply Hcl; auto.
+  - intros bm a Hl. rewrite El in Hl. destruct (i_leafwf c I bm a Hl). split; auto.
+  - intros bm Hs. rewrite Es in Hs. apply Hreg. apply (i_summwf c I); auto.
+  - intros t i Hi. rewrite Ec in Hi. pose proof (i_wf c I t i Hi) as W.
+    destruct i as [k| | | | | | | | | | | | |]; simpl in *; auto. destruct k; simpl in *; intuition.
+  - rewrite Ec. apply (i_drain c I).
+  - rewrite Ea, Ec. apply (i_acc c I).
+  - intros t Ht i Hi. rewrite Ec in Hi. eapply (i_mainonly c I); eauto.
+  - intros t i Hi. rewrite Ef in Hi. eapply (i_final c I); eauto.
+  - exact S'.
+Qed.
+
+(** ** exit sequence of a piped worker *)
+Lemma okfinal_props : forall c i, okfinal i -> wfinstr c i /\ is_drain i = false /\ main_only i = false /\ consumable i.
+Proof.
+  intros c i H. destruct i; simpl in *; try contradiction. destruct a; simpl; auto; contradiction.
+Qed.
+
+Lemma pres_final : forall c t, CInv c -> c_cont c t = [] -> CInv (f_final c t).
+Proof.
+  intros c t I Hc.
+  set (c' := f_final c t).
+  set (new := c_final c t).
+  assert (Hc0 : c_cont c t = [] ++ []) by exact Hc.
+  assert (Hc' : forall u, c_cont c' u = updT (c_cont c) t (new ++ []) u).
+  { intro u. unfold c', f_final, new. simpl. rewrite app_nil_r. reflexivity. }
+  assert (Hpre : forall j, In j (@nil instr) -> j <> IRun /\ (forall l, j <> IHandlers l)) by (intros j []).
+  assert (Hnewok : forall j, In j new -> okfinal j) by (intros j Hj; apply (i_final c I t j Hj)).
+  assert (Hkeepc : forall u k, cclimbing c u k -> cclimbing c' u k).
+  { intros u k Hk. destruct (Nat.eq_dec u t) as [->|Hn].
+    - destruct Hk as [r' Hk]. rewrite Hc in Hk. discriminate.
+    - eapply hs_climbing_other; eauto. }
+  assert (Hin : forall j, In j (c_cont c main) -> In j (c_cont c' main)).
+  { intros j Hj. eapply hs_in_main; eauto. }
+  constructor.
+  - intros h Hh. change (c_new c' h) with (c_new c h) in Hh.
+    destruct (i_new c I h Hh) as [[j [A B]]|[x [A B]]].
+    + left. exists j. split; auto.
+    + right. exists x. split; auto.
+  - intros h Hh. change (c_col c' h) with (c_col c h) in Hh.
+    destruct (i_col c I h Hh) as [[d [j [A B]]]|[x [A B]]].
+    + left. exists d, j. split; auto.
+    + right. exists x. split; auto. eapply hs_pend_bit; eauto; reflexivity.
+  - intros bm' a' Hl. change (c_leaf c' bm' a') with (c_leaf c bm' a') in Hl. change (c_summ c' bm') with (c_summ c bm').
+    destruct (i_leaf c I bm' a' Hl) as [A|[[l [A B]]|[u A]]]; auto.
+    + right; left. exists l. split; auto.
+    + right; right. exists u. auto.
+  - intros bm' Hs. change (c_summ c' bm') with (c_summ c bm') in Hs. change (c_top c') with (c_top c).
+    destruct (i_summ c I bm' Hs) as [A|[[l [A B]]|[u A]]]; auto.
+    + right; left. exists l. split; auto.
+    + right; right. exists u. auto.
+  - intros Ht. change (c_top c') with (c_top c) in Ht. change (c_notif c') with (c_notif c).
+    destruct (i_top c I Ht) as [A|[A|[u A]]]; auto.
+    + right; left. apply Hin; auto.
+    + right; right. exists u. auto.
+  - intros bm' a' Hl. apply (i_leafwf c I); auto.
+  - intros bm' Hs. apply (i_summwf c I); auto.
+  - eapply (hs_wf c c' t); eauto; try reflexivity. intros j Hj. apply (okfinal_props c j). auto.
+  - eapply (hs_drain c c' t); eauto. intros ->.
+    apply (drain_ok_app_nd new []); [|exact Logic.I]. intros j Hj. apply (okfinal_props c j). auto.
+  - eapply (hs_acc c c' t); eauto; reflexivity.
+  - eapply (hs_mainonly c c' t); eauto. intros j Hj _. apply (okfinal_props c j). auto.
+  - intros u j Hj. unfold c', f_final in Hj. simpl in Hj. unfold updT in Hj.
+    destruct (Nat.eqb u t); [destruct Hj|]. eapply (i_final c I); eauto.
+  - eapply (hs_slab c c'); eauto; reflexivity.
+Qed.
+
+Lemma pres_setfinal : forall c t f, CInv c -> (forall i, In i f -> okfinal i) -> CInv (f_setfinal c t f).
+Proof.
+  intros c t f I Hf.
+  pose proof (i_final c I) as Hfin. pose proof (i_slab c I) as S.
+  constructor; try (apply I; fail).
+  - intros u j Hj. unfold f_setfinal in Hj. simpl in Hj. unfold updT in Hj.
+    destruct (Nat.eqb u t); auto. eapply Hfin; eauto.
+  - eapply SInv_same; [| | |exact S]; reflexivity.
+Qed.
+
+(** ** Main theorem of this file *)
+Theorem cstep_inv : forall c c', CInv c -> cstep c c' -> CInv c'.
+Proof.
+  intros c c' I H. induction H.
+  - eapply pres_leaf_or; eauto.
+  - eapply pres_summ_or; eauto.
+  - eapply pres_top_or; eauto.
+  - eapply pres_cb; eauto.
+  - eapply pres_top_swap; eauto.
+  - eapply pres_summ_swap; eauto.
+  - eapply pres_leaf_swap; eauto.
+  - eapply pres_poll_begin; eauto.
+  - eapply pres_norm1; eauto.
+  - eapply pres_benign; eauto.
+  - eapply pres_add; eauto.
+  - eapply pres_final; eauto.
+  - eapply pres_setfinal; eauto.
+  - eapply CInv_ceq; eauto.
 Qed.
